@@ -310,12 +310,23 @@ let dispatch (w : string list) : string =
           let w = ref [ srv ] in
           let outs = List.map (fun o ->
               let exported = (match o with
-                | SSync (src, _) -> (match nth_error !w src with Some s -> "#" ^ fnv_bytes (server_to_bincode s) | None -> "")
+                | SSync (src, _) -> (match nth_error !w src with
+                    | Some s ->
+                        (* the exported bytes, and the import of them: must give back the exporter's state (KeyStateFacts) *)
+                        let b = server_to_bincode s in
+                        let chk = if not (server_okb s) then "!premise-of-roundtrip-theorem-not-met"
+                          else (match server_from_bincode b with Some s' when s' = s -> "" | _ -> "!import-differs") in
+                        "#" ^ fnv_bytes b ^ chk
+                    | None -> "")
                 | _ -> "") in
               let w', r = srv_step grp !w o in
               w := w';
               sres_string r ^ exported) (List.map sop_of_string ops) in
           String.concat " " outs ^ " | " ^ String.concat " " (List.map server_string !w))
+  | [ "ks.load"; b ] ->
+      (match server_from_bincode (bytes_of_hex b) with
+       | Some s -> "ok " ^ fnv_bytes (server_to_bincode s)
+       | None -> "err")
   | [ "cl.blind"; input; r ] -> hex_of_bytes (pp_client_blind grp (bytes_of_hex input) (z_of_hex r))
   | [ "cl.h2g"; input ] -> hex_of_bytes (pp_hash_to_group grp (bytes_of_hex input))
   | [ "cl.unblind"; p; r ] -> out_bytes (client_unblind grp (bytes_of_hex p) (z_of_hex r))
